@@ -668,8 +668,12 @@ class Sym:
         if e == '*':
             if t[0] == 'ref':
                 nt = t[1]
+            elif t[0] == 'closure':
+                nt = t            # `(*_1).capture` of a by-reference closure environment
             else:
                 nt = ('deref', t)
+        elif isinstance(e, dict) and 'f' in e and t[0] == 'closure' and isinstance(e['f'], int) and e['f'] < len(t[2]):
+            nt = t[2][e['f']]     # a captured value, when the closure is analysed together with its creation site
         elif isinstance(e, dict) and 'f' in e:
             n = e['n']
             if t[0] == 'agg' and n in t[2]:
@@ -831,6 +835,7 @@ class Sym:
             sm = body.succ_map()
             heads = {}
             bodies = []
+            hb = {}
             for u in dom:
                 for h in sm[u]:
                     if h in dom.get(u, ()):  # h dominates u: back edge
@@ -869,8 +874,10 @@ class Sym:
                                     assigned.add(mutrefs[a0['place']['l']])
                         heads.setdefault(h, set()).update(assigned)
                         bodies.append(comp)
+                        hb.setdefault(h, set()).update(comp)
             self._loops = heads
             self._loop_bodies = bodies
+            self._loop_of_head = hb
         return self._loops
 
     def run(self, start=0, env=None):
@@ -953,7 +960,13 @@ class Sym:
                 if c is None:
                     path = None
                     fterm = self.op_term(p, t['func'])
-                    term = ('calli', fterm, tuple(args), b)
+                    ft0 = strip_transparent(fterm)
+                    if isinstance(ft0, tuple) and ft0 and ft0[0] == 'fn':
+                        # a function item that travelled as a value (captured / passed as a parameter): an ordinary call
+                        path = ft0[1]
+                        term = ('call', path, tuple(args), b)
+                    else:
+                        term = ('calli', fterm, tuple(args), b)
                 else:
                     path = c.get('resolved') or c['path']
                     term = ('call', path, tuple(args), b)
@@ -1474,6 +1487,114 @@ def agg_variant(t):
 
 def find_calls(t, suffix):
     return [x for x in term_walk(t) if isinstance(x, tuple) and x and x[0] == 'call' and x[1].endswith(suffix)]
+
+
+def loop_stream(sym, lv):
+    """A collection local that is grown inside a loop (`for x in SRC { if P(x) { v.push(F(x)); } }`), described like
+    the iterator pipeline it stands for.  lv = ('loopvar', local, name, head).
+    returns dict(src=iterated source term, elem=loop element term, rows=[(literals tested on the iteration before the
+    push, pushed term | None)], cap=term | None, nexts=the next() call term); raises Lost when the loop is not of that shape"""
+    if not (isinstance(lv, tuple) and lv and lv[0] == 'loopvar'):
+        raise Lost('not a loop-built collection')
+    head = lv[3]
+    sym.loop_info()
+    comp = sym._loop_of_head.get(head)
+    if not comp:
+        raise Lost('loop not found')
+    rows = []
+    src = None
+    elem = None
+    nxt = None
+    cap = None
+    for p in sym.paths:
+        if head not in p.blocks:
+            continue
+        order = {b: i for i, b in enumerate(p.blocks)}
+        inloop = [c for c in p.conds if c[2] is not None and c[2] in comp]
+        nexts = [c for c in inloop if literal(c)[0] == 'variant' and literal(c)[1][0] == 'call' and literal(c)[1][1].split('::')[-1] == 'next']
+        if not nexts:
+            continue
+        lit = literal(nexts[0])
+        if option_is_some(lit[2]) is not True:
+            continue      # the exit of the loop
+        call = lit[1]
+        it = strip_transparent(call[2][0])
+        while isinstance(it, tuple) and it and it[0] == 'call' and it[1].split('::')[-1] == 'into_iter':
+            it = strip_transparent(it[2][0])
+        if src is None:
+            src, nxt = it, call
+        elif call[3] != nxt[3]:
+            raise Lost('two iterators drive the loop')
+        pushes = [e for e in p.effects if e[0] == 'call' and e[1] and e[1].split('::')[-1] in ('push', 'push_back', 'insert') and e[3] in comp and root_of(strip_transparent(e[2][0])) == lv]
+        others = [e for e in p.effects if e[0] == 'call' and e[1] and e[1].split('::')[-1] in LOOP_MUTATORS and e[3] in comp and root_of(strip_transparent(e[2][0])) == lv and e not in pushes]
+        if len(pushes) > 1 or others:
+            raise Lost('the collection is changed more than once per iteration')
+        pb = order.get(pushes[0][3], 10 ** 9) if pushes else 10 ** 9
+        lits = []
+        for c in inloop:
+            if c is nexts[0]:
+                continue
+            l2 = literal(c)
+            if order.get(c[2], 0) > pb:
+                # tested after the push: may only be the capacity test `v.len() == N` that ends the loop
+                if l2[0] in ('eq', 'lt') and any(x[1].split('::')[-1] == 'len' for x in find_calls(l2[1], '::len') + (find_calls(l2[2], '::len') if isinstance(l2[2], tuple) else [])):
+                    other = l2[2] if find_calls(l2[1], '::len') else l2[1]
+                    cap = other
+                    continue
+                raise Lost('the iteration branches after the push')
+            lits.append(c)
+        p.loop_elem = ('field', ('downcast', call, 'Some'), '0')
+        rows.append((lits, strip_transparent(pushes[0][2][1]) if pushes else None, p))
+    if src is None or not rows:
+        raise Lost('no iteration path')
+    elem = ('field', ('downcast', nxt, 'Some'), '0')
+    site = nxt[3]
+
+    def is_elem(t):
+        # the element of this loop, whatever the values flowing into the iterator on a particular path
+        t = strip_transparent(t)
+        return (isinstance(t, tuple) and len(t) == 3 and t[0] == 'field' and t[2] == '0' and isinstance(t[1], tuple) and t[1][0] == 'downcast' and t[1][2] == 'Some'
+                and isinstance(t[1][1], tuple) and t[1][1][0] == 'call' and t[1][1][1].split('::')[-1] == 'next' and t[1][1][3] == site)
+    return {'src': src, 'elem': elem, 'is_elem': is_elem, 'rows': rows, 'cap': cap, 'next': nxt}
+
+
+def closure_sym(ctx, cl, res=None):
+    """enumerate a closure body with its captured values substituted (cl = ('closure', path, captures))"""
+    b = ctx.body(cl[1])
+    if res is not None:
+        res.touch(b)
+    s = Sym(b)
+    s.run(env={1: cl})
+    return b, s
+
+
+def resolve_map_element(ctx, t, res=None):
+    """`x` drawn from `ITER.map(F)` (x = next(..map(ITER, F)..).Some.0) rewritten as F(element of ITER), when F is a
+    closure of this crate with a single straight path; otherwise t unchanged"""
+    t0 = strip_transparent(t)
+    if not (isinstance(t0, tuple) and t0[0] == 'field' and t0[2] == '0' and isinstance(t0[1], tuple) and t0[1][0] == 'downcast' and t0[1][2] == 'Some'):
+        return t
+    nx = strip_transparent(t0[1][1])
+    if not (isinstance(nx, tuple) and nx[0] == 'call' and nx[1].split('::')[-1] == 'next'):
+        return t
+    it = strip_transparent(nx[2][0])
+    while isinstance(it, tuple) and it and it[0] == 'call' and it[1].split('::')[-1] == 'into_iter':
+        it = strip_transparent(it[2][0])
+    if not (isinstance(it, tuple) and it[0] == 'call' and it[1].split('::')[-1] == 'map' and len(it[2]) == 2):
+        return t
+    inner, cl = it[2][0], it[2][1]
+    if not (isinstance(cl, tuple) and cl[0] == 'closure' and ctx.f.body(cl[1]) is not None):
+        return t
+    b = ctx.body(cl[1])
+    if res is not None:
+        res.touch(b)
+    inner_elem = ('field', ('downcast', ('call', nx[1], (('ref', inner, True),), nx[3]), 'Some'), '0')
+    s = Sym(b)
+    s.run(env={1: cl, 2: inner_elem})
+    cps = s.complete_paths()
+    if len(cps) != 1 or cps[0].conds:
+        return t
+    return cps[0].ret
 
 
 def bool_split(paths):
